@@ -182,7 +182,7 @@ type c09UnsatCase struct {
 func c09Unsat(c *core.Ctx) {
 	gen := func(yield func(c09UnsatCase) bool) {
 		alpha := []int{scen.ENone, scen.EName, scen.ESlice}
-		kinds := []string{"name-req", "name-opt", "type-req", "type-opt", "cfg-req", "cfg-opt", "func-req", "func-opt", "custom-req", "custom-opt", "pfx-req", "pfx-opt", "nametype-req", "nametype-opt"}
+		kinds := []string{"name-req", "name-opt", "type-req", "type-opt", "cfg-req", "cfg-opt", "func-req", "func-opt", "custom-req", "custom-opt", "pfx-req", "pfx-opt", "nametype-req", "nametype-opt", "cfgtypes-opt", "cfgempty-opt", "pfxtypes-opt"}
 		allGraphs(3, alpha, false, func(e [][]int) bool {
 			for _, lz := range []int{0, 4} {
 				lazy := []bool{false, false, lz == 4}
@@ -245,7 +245,8 @@ func c09Unsat(c *core.Ctx) {
 			case s0 != s1 || strings.Join(o0.RT.Log, " ") != strings.Join(o.RT.Log, " "):
 				c.Outcome(x.Kind + "/differs")
 				c.Report(key("optdiff"), "optional-changed-outcome", fmt.Sprintf("unsatisfiable optional %s point on %s changed the outcome: %q (err=%v) vs %q without the point", x.Kind, nm, s1, scen.FirstLine(o.Err), s0), cs)
-			case !scen.IsNilSlot(n.S5) || n.M0 != nil || ((x.Kind == "cfg-opt" || x.Kind == "pfx-opt") && n.V0 != ""):
+			case !scen.IsNilSlot(n.S5) || n.M0 != nil || ((x.Kind == "cfg-opt" || x.Kind == "pfx-opt") && n.V0 != "") ||
+				n.VD != 0 || n.VL != nil || n.VP != nil || n.VM != nil || n.VS.A != "":
 				c.Outcome(x.Kind + "/touched")
 				c.Report(key("opttouched"), "optional-touched", fmt.Sprintf("unsatisfiable optional %s point on %s does not hold its zero value", x.Kind, nm), cs)
 			default:
